@@ -82,6 +82,10 @@ class EvalContext(NamedTuple):
 
     stats_time: Dict[ProcessingStage, float]
 
+    # The paths that the evaluation loads without producing them, as they were resolved when
+    # the signatures of the evaluation were computed.
+    resolved_loads: Optional[Dict[DDSPath, PyHash]] = None
+
 
 # The name of a codec protocol.
 ProtocolRef = NewType("ProtocolRef", str)
